@@ -140,12 +140,12 @@ var stepKinds = map[string][]string{
 	"executor.(*DepthExecutorManager).Execute":    {"append-unsorted"},
 	"executor.NewDepthExecutorManager":            {"call:executor.walkPlanStep"},
 	"executor.findNextExecutionRequestsWithCache": {"call:executor.FindInsertionPoints", "call:executor.copy2DStringArray", "carried:[]*executor.ExecutionRequest", "early-exit"},
-	"executor.walkPlanStep":                       {"call:executor.walkPlanStep"},
-	"pebbles.(*Gateway).getQueryers":              {"call:(*github.com/buildbuildio/pebbles.Gateway).getQueryers", "call:dynamic call of pebbles.QueryerFactory"},
+	"executor.walkPlanStep":                       {selfRecursionKind},
+	"pebbles.(*Gateway).getQueryers":              {selfRecursionKind, "call:dynamic call of pebbles.QueryerFactory"},
 	"pebbles.(*Gateway).newSubscriptionEntry":     {"append-unsorted"},
 	"pebbles.(*Gateway).newSubscriptionEntry$1":   {"call:executor.FindInsertionPoints", "carried:[]*planner.QueryPlanStep", "early-exit"},
 	"pebbles.(*Gateway).parseIntrospectionQuery":  {"call:(*introspection.IntrospectionResolver).ResolveIntrospectionFields", "early-exit"},
 	"planner.(*QueryPlan).SetComputedValues":      {"call:(*planner.QueryPlanStep).SetComputedValues", "store"},
-	"planner.(*QueryPlanStep).SetComputedValues":  {"call:(*planner.QueryPlanStep).SetComputedValues", "store"},
+	"planner.(*QueryPlanStep).SetComputedValues":  {selfRecursionKind, "store"},
 	"planner.extractSelectionSet":                 {"early-exit"},
 }
